@@ -176,6 +176,10 @@ func (s *Swarm) SendTo(name mesh.PeerName, msg *message.Message) error {
 
 // ID returns the local node ID.
 func (s *Swarm) ID() uint64 {
+	if s == nil {
+		return 0 // no cluster configured (NumPeers is nil-safe in the same way)
+	}
+
 	return uint64(s.name)
 }
 
